@@ -2,6 +2,7 @@ package rules
 
 import (
 	"fmt"
+	"go/constant"
 	"go/token"
 	"strings"
 
@@ -451,7 +452,49 @@ func ruleTBTokens(r *core.Reporter) {
 			_, isSub := st.Val.(*ssa.BinOp)
 			return okf && f == "tokens" && isSub
 		}
-		if ret, bad := ir.PathExists([]ir.Pt{ir.Entry(wf)}, ir.Opts{Stop: take}, ir.IsExit); bad {
+		// a helper that reports "took one" (`if tb.tryTake() { return }`, kept out of line because it defers the
+		// unlock): its true result stands for the take when every return of true in it follows the decrement
+		takesOnTrue := func(h *ssa.Function) bool {
+			if h == nil || h.Blocks == nil || h.Signature.Results().Len() != 1 {
+				return false
+			}
+			res := ir.Reach([]ir.Pt{ir.Entry(h)}, ir.Opts{Stop: take})
+			for _, ret := range ir.Returns(h) {
+				if !res.Reached[ret] {
+					continue
+				}
+				if c, isC := ir.RetVal(ret, 0).(*ssa.Const); isC && c.Value != nil && c.Value.Kind() == constant.Bool {
+					if constant.BoolVal(c.Value) {
+						return false
+					}
+					continue
+				}
+				vals, ok := res.BoolReturn(ret)
+				if !ok {
+					return false
+				}
+				for _, v := range vals {
+					if v {
+						return false
+					}
+				}
+			}
+			return true
+		}
+		type tkEdge struct {
+			b *ssa.BasicBlock
+			s int
+		}
+		viaHelper := map[tkEdge]bool{}
+		for _, ii := range ir.Ifs(wf) {
+			if c, ok := ii.Atom.V.(*ssa.Call); ok {
+				if h := ir.CalleeOf(c.Common()); h != nil && h != wf && core.InModule(h) && takesOnTrue(h) {
+					viaHelper[tkEdge{ii.If.Block(), ii.EdgeWhen(true)}] = true
+				}
+			}
+		}
+		notTaken := func(b *ssa.BasicBlock, s int) bool { return !viaHelper[tkEdge{b, s}] }
+		if ret, bad := ir.PathExists([]ir.Pt{ir.Entry(wf)}, ir.Opts{Stop: take, EdgeOK: notTaken}, ir.IsExit); bad {
 			r.Violated("(*tokenBucket).Wait/takes-token", p.InstrPos(ret), "Wait can return without having taken a token (request released for free)")
 		} else {
 			// refill precedes the test
@@ -808,7 +851,22 @@ func ruleBMFeedback(r *core.Reporter) {
 		ev := ir.Event{ID: "bucket." + pair[1], Match: func(in ssa.Instruction) bool {
 			return ir.IsPlainCallTo(in, "(*"+pkgRL+".tokenBucket)."+pair[1])
 		}}
-		if ret, bad := ir.PathExists([]ir.Pt{ir.Entry(fn)}, ir.Opts{Stop: ir.WithSummaries(ev, 2)}, ir.IsExit); bad {
+		// a nil manager has no buckets: `if bm == nil { return }` (the limiter is off) is not a lost feedback
+		type nilEdge struct {
+			b *ssa.BasicBlock
+			s int
+		}
+		nilRecv := map[nilEdge]bool{}
+		for _, ii := range ir.Ifs(fn) {
+			a := ii.Atom
+			if a.V == nil && a.Op == token.EQL && len(fn.Params) > 0 {
+				if (a.X == ssa.Value(fn.Params[0]) && ir.IsNilConst(a.Y)) || (a.Y == ssa.Value(fn.Params[0]) && ir.IsNilConst(a.X)) {
+					nilRecv[nilEdge{ii.If.Block(), ii.EdgeWhen(true)}] = true
+				}
+			}
+		}
+		live := func(b *ssa.BasicBlock, s int) bool { return !nilRecv[nilEdge{b, s}] }
+		if ret, bad := ir.PathExists([]ir.Pt{ir.Entry(fn)}, ir.Opts{Stop: ir.WithSummaries(ev, 2), EdgeOK: live}, ir.IsExit); bad {
 			r.Violated("BucketManager."+pair[0], p.InstrPos(ret), "%s can return without reaching the host's bucket (feedback for an evicted/cleaned-up host is dropped, the next Wait starts from a fresh full bucket)", pair[0])
 		} else {
 			r.Held("BucketManager."+pair[0], 1, "always reaches tokenBucket.%s", pair[1])
